@@ -158,6 +158,20 @@ def corpus(tier):
     for n in range(1, 5 if tier == "quick" else 6):
         for seq in itertools.product(range(len(alpha)), repeat=n):
             files.append(bytes.fromhex(pre + "".join(alpha[i] for i in seq)))
+    # a constant BEFORE the declaration of its type (the parser reads one word; the disassembler resolves the type afterwards),
+    # for every kind / width / signedness, and the type redeclared wider after a constant
+    for kind_ in (21, 22):
+        for w_ in (0, 1, 7, 8, 16, 31, 32, 33, 64, 128, 0xffffffff):
+            for sg in ((0, 1) if kind_ == 21 else (0,)):
+                decl = (le(4 << 16 | 21) + le(1) + le(w_) + le(sg)) if kind_ == 21 else (le(3 << 16 | 22) + le(1) + le(w_))
+                files.append(bytes.fromhex(c03.HEADER + le(4 << 16 | 43) + le(1) + le(2) + le(0xfffffff9) + decl))
+                files.append(bytes.fromhex(c03.HEADER + le(4 << 16 | 21) + le(1) + le(32) + le(1) + le(4 << 16 | 43) + le(1) + le(2) + le(0x8000) + decl))
+    # OpExtInst of OpenCL.std for numbers across the table
+    ocl = "4f70656e" "434c2e73" "74640000"
+    for num in (0, 94, 95, 104, 141, 170, 171, 187, 201, 204, 205):
+        files.append(bytes.fromhex(c03.HEADER + le(5 << 16 | 11) + le(1) + ocl + le(2 << 16 | 19) + le(2) + le(3 << 16 | 33) + le(3) + le(2) +
+                                   le(5 << 16 | 54) + le(2) + le(4) + le(0) + le(3) + le(2 << 16 | 248) + le(5) + le(6 << 16 | 12) + le(2) + le(6) + le(1) + le(num) + le(6) +
+                                   le(1 << 16 | 253) + le(1 << 16 | 56)))
     # byte-swapped magic and a fully byte-swapped module
     files.append(bytes.fromhex("07230203") + b[4:])
     files.append(b"".join(b[i:i + 4][::-1] for i in range(0, len(b), 4)))
